@@ -94,6 +94,15 @@ def other_cases():
     add("import-qualified", imp, ("ok", ["Tt"]), (["Foo"], "x", "type"))
     imp2 = {"w.emb": 'import "other.emb" as oth\n' + HDR + 'struct Foo:\n  0 [+1]  Tt  x\n', "other.emb": HDR + "struct Tt:\n  0 [+1]  UInt  v\n"}
     add("import-unqualified-not-visible", imp2, ("error", "No candidate"))
+    # an import alias is searchable at module level: a field / abbreviation / parameter of the same name makes
+    # the head of a field reference visible from two scopes
+    for nm, body in (("field", "struct Foo:\n  0 [+1]  UInt  oth\n  1 [+oth]  UInt:8[]  data\n"),
+                     ("abbreviation", "struct Foo:\n  0 [+1]  UInt  length  (oth)\n  1 [+oth]  UInt:8[]  data\n"),
+                     ("parameter", "struct Foo(oth: UInt:8):\n  0 [+oth]  UInt:8[]  data\n")):
+        add("import-alias-vs-%s-ambiguous" % nm, {"w.emb": 'import "other.emb" as oth\n' + HDR + body, "other.emb": HDR + "struct Tt:\n  0 [+1]  UInt  v\n"},
+            ("error", "Ambiguous name"))
+    add("import-alias-no-collision", {"w.emb": 'import "other.emb" as oth\n' + HDR + "struct Foo:\n  0 [+1]  UInt  nn\n  1 [+nn]  UInt:8[]  data\n  2 [+1]  oth.Tt  tt\n",
+                                       "other.emb": HDR + "struct Tt:\n  0 [+1]  UInt  v\n"}, ("ok", ["Tt"]), (["Foo"], "tt", "type"))
     imp3 = {"w.emb": 'import "other.emb" as oth\n' + HDR + 'struct Foo:\n  0 [+1]  oth.Zz  x\n', "other.emb": HDR + "struct Tt:\n  0 [+1]  UInt  v\n"}
     add("import-missing-member", imp3, ("error", "No candidate"))
     return out
